@@ -67,8 +67,13 @@ def gen(rng, tier, ctx):
         dst = rng.choice([i for i in range(n) if i != src])
         base = dec(pool[src]["desc"])
         try:
-            twin = pools.bad_game(rng, base, rng.choice(pools.BAD_RULES + ("succ_float_same", "succ_float_same", "prob_int_as_float")))
-            pool[dst] = {"name": pool[dst]["name"], "desc": enc(twin), "tag": pool[src]["tag"] + "+twin"}
+            if rng.random() < 0.5 and isinstance(base, dict) and "players" in base:
+                twin, kind_ = pools.variant_game(rng, base)      # well-formed near-twin
+                tag_ = "+twin:" + kind_
+            else:
+                twin = pools.bad_game(rng, base, rng.choice(pools.BAD_RULES + ("succ_float_same", "succ_float_same", "prob_int_as_float")))
+                tag_ = "+twin"
+            pool[dst] = {"name": pool[dst]["name"], "desc": enc(twin), "tag": pool[src]["tag"] + tag_}
         except Exception:
             pass
     for pe in pool:
